@@ -123,6 +123,7 @@ type Worker struct {
 	chanCnt     int
 	sched       *scheduler
 	onceDone    map[string]bool
+	lits        map[int]bool // term id → value asserted on this path
 }
 
 type traceTerm struct {
@@ -174,6 +175,7 @@ func (w *Worker) resetPath(prefix []Decision) {
 	w.chanCnt = 0
 	w.sched = nil
 	w.onceDone = nil
+	w.lits = map[int]bool{}
 	w.sol.NewPath()
 }
 
@@ -212,6 +214,14 @@ func (w *Worker) branch(c *Term) bool {
 		panic(engineError{"symbolic branch during package initialisation"})
 	}
 	ts := w.ts
+	if v, ok := w.lits[c.id]; ok {
+		return v
+	}
+	if c.Op == OBNot {
+		if v, ok := w.lits[c.A[0].id]; ok {
+			return !v
+		}
+	}
 	if w.inPrefix() {
 		d := w.prefix[w.dpos]
 		w.dpos++
@@ -224,6 +234,7 @@ func (w *Worker) branch(c *Term) bool {
 		} else {
 			w.sol.Assert(ts.Not(c))
 		}
+		w.lits[c.id] = arm
 		w.record(d)
 		return arm
 	}
@@ -240,6 +251,7 @@ func (w *Worker) branch(c *Term) bool {
 		}
 		w.pushSibling(Decision{K: 'b', V: v})
 	}
+	w.lits[c.id] = arm
 	if arm {
 		w.sol.Assert(c)
 		w.record(Decision{K: 'b', V: 1})
@@ -372,7 +384,11 @@ func (w *Worker) checkProp(bad *Term, id, kind, site, msg string) {
 	if bad.isFalse() {
 		return
 	}
+	if v, ok := w.lits[bad.id]; ok && !v {
+		return
+	}
 	ts := w.ts
+	defer func() { w.lits[bad.id] = false }()
 	if w.inPrefix() {
 		// already checked by the path that created this prefix
 		if bad.isTrue() {
